@@ -111,7 +111,7 @@ Proof.
 Qed.
 Example env0_safe_types :
   filter (fun sid => safe_ty 8 env0 (TStruct sid)) (seq 0 (length env0))
-  = [0; 1; 2; 3; 4; 5; 6; 8; 9; 10; 11; 12; 13; 14; 15; 17; 20; 21; 22; 23; 27]%nat.
+  = [0; 1; 2; 3; 4; 5; 6; 8; 9; 10; 11; 12; 13; 14; 15; 17; 20; 21; 22; 23; 29]%nat.
 Proof. vm_compute. reflexivity. Qed.
 
 (* C06 on the code's schemas: the prefix theorem for every generated struct type all of whose members are scalar *)
@@ -142,5 +142,5 @@ Proof.
   - apply env0_members_bound.
 Qed.
 Example env0_flat_types :
-  filter (fun sid => flat_b (fields_of env0 sid)) (seq 0 (length env0)) = [3; 4; 6; 9; 10; 11; 12; 13; 14; 15; 17; 20; 22; 23; 27]%nat.
+  filter (fun sid => flat_b (fields_of env0 sid)) (seq 0 (length env0)) = [3; 4; 6; 9; 10; 11; 12; 13; 14; 15; 17; 20; 22; 23; 29]%nat.
 Proof. vm_compute. reflexivity. Qed.
